@@ -200,6 +200,30 @@ def check (spec0):
                 continue
             raise
         zdiag [name] = (np.array (ml.Z).diagonal ().copy (), ml.sources [0].impedance)
+        if '+' in name or name == 'obj':
+            # every attachment acts: the same structure with one load object per attachment (absolute pulse
+            # numbers) gives the same matrix; and a load registered after a first solve acts like one given at once
+            sm = copy.deepcopy (sl)
+            sm ['loads'] = [dict (k = 'z', z = [50.0, -20.0], att = [[k]]) for k in want]
+            mm = gen.build (sm)
+            observe.solve (mm)
+            mon ['loads.matrix'] = mon.get ('loads.matrix', 0) + 1
+            d = np.abs (np.array (mm.Z).diagonal () - zdiag [name][0]).max () / np.abs (zdiag [name][0]).max ()
+            if d > 1e-12:
+                bad ('loads.matrix', 'load-count-in-matrix', '--attach-load %s: matrix diagonal differs by %.3g from one load per attachment (pulses %s)' % (att, d, sorted (want)))
+        if name == 'obj':
+            MM = common.repo ()
+            s0 = copy.deepcopy (sl)
+            s0 ['loads'] = []
+            m0 = gen.build (s0)
+            observe.solve (m0)
+            z0 = complex (m0.sources [0].impedance)
+            common.guarded (lambda: m0.register_load (MM.Impedance_Load (50.0-20.0j), k1 - 1, t1), 'register_load')
+            observe.solve (m0)
+            mon ['loads.late'] = 1
+            za, zb = complex (m0.sources [0].impedance), complex (ml.sources [0].impedance)
+            if abs (za - zb) > 1e-9 * abs (zb) and abs (zb - z0) > 1e-6 * abs (zb):
+                bad ('loads.late', 'load-after-solve', 'load registered on pulse %d of object %d after a first solve: feed impedance %r, with the load from the start %r (unloaded %r)' % (k1, t1, za, zb, z0))
     if 'abs' in zdiag and 'obj' in zdiag:
         if not np.array_equal (zdiag ['abs'][0], zdiag ['obj'][0]) or zdiag ['abs'][1] != zdiag ['obj'][1]:
             bad ('loads', 'load-forms-differ', 'absolute and per-object attachment give different matrices')
